@@ -135,7 +135,7 @@ def main(tier):
     tdir = os.path.join(work, "traces")
     os.makedirs(tdir, exist_ok=True)
     nfiles = 4 if tier == "quick" else 8
-    vf.run([b_rec, tdir, str(vf.seed()), "150" if tier == "quick" else "4000", str(nfiles)], ok_codes=(0, 3))
+    vf.run([b_rec, tdir, str(vf.seed()), "150" if tier == "quick" else "4000", str(nfiles)], ok_codes=(0, 3), timeout=300)
     summ = vf.read_ndjson(os.path.join(tdir, "summary.json"))
     for rec in summ:
         if rec.get("kind") == "crash":
